@@ -3,6 +3,8 @@ have been observed for a 'held' verdict, and how the evidence is written."""
 from vdriver import Job, NCPU
 
 ENGINES = {
+    'h_locale': dict(tulz=['locale'], setup_variants=['asan'],
+                     kind='exhaustive table combinations + hostile/random strings against an independent parse-and-lookup oracle, ASan/UBSan, valgrind sample'),
     'h_observable': dict(tulz=['none'], setup_variants=['asan'],
                          kind='lock-step value model for Observable<int|long|double+tolerance|float|std::string>, ASan/UBSan'),
     'h_router': dict(tulz=['router'], setup_variants=['asan'],
@@ -331,3 +333,47 @@ SPECS['C16'] = dict(
     assumptions=['no signed overflow, no integer division by zero, no NaN: UBSan then speaks only about tulz', 'the Observable is not moved while subscriptions exist'],
     manifest=dict(engine='h_observable', text='Lock-step model of the held value with the same equality; the call log of recording subscribers is compared after every operation over seeded histories for '
                   'five value types including a tolerance comparator, under ASan/UBSan.', note=SAN_NOTE, technique='runtime monitoring: lock-step reference model under ASan/UBSan'))
+
+
+# ----------------------------------------------------------------------------- LocaleInfo (C19)
+
+LOCALE_FORMS = 408   # 224 language names + 184 distinct codes: cases [0, 408) are the exhaustive part
+
+
+def locale_jobs(tier, seed):
+    q = tier == 'quick'
+    jobs = []
+    variants = ('asan',) if q else ('asan', 'asan-O0', 'asan-clang')
+    hostile = 24000 if q else 2000000
+    for vi, variant in enumerate(variants):
+        for frm, cnt in split(LOCALE_FORMS, NCPU):
+            jobs.append(Job('h_locale', variant, pseed(seed, 'C19', vi), frm, cnt, label='exhaustive'))
+        n = hostile if vi == 0 else hostile // 20
+        for frm, cnt in split(n, NCPU):
+            jobs.append(Job('h_locale', variant, pseed(seed, 'C19', vi), LOCALE_FORMS + frm, cnt, label='hostile'))
+    if not q:
+        for frm, cnt in split(5000, NCPU):
+            jobs.append(Job('h_locale', 'plain', pseed(seed, 'C19', 9), LOCALE_FORMS + frm, cnt, label='valgrind', valgrind=True, timeout=3000))
+        jobs.append(Job('h_locale', 'plain', pseed(seed, 'C19', 9), 0, 6, label='valgrind-exhaustive-sample', valgrind=True, timeout=3000))
+    return jobs
+
+
+SPECS['C19'] = dict(
+    title='LocaleInfo::get is total, memory-safe and table-consistent',
+    jobs=locale_jobs,
+    require={'any': {'validCombinations': 600000, 'hostileStrings': 20000, 'longParts': 2000, 'dotBeforeUnderscore': 1000, 'unknownLanguageKnownCountry': 500}},
+    evidence=lambda agg, samples, distinct, tier: cov(
+        agg.get('calls', 0), distinct,
+        '(a) exhaustive: every table language (224 names and 184 distinct codes) x every table country (249, by code and by name) x {no charset, .UTF-8, .1252}; (b) hostile classes: parts of 60-70, 100, '
+        '1000, 100000 bytes, "." before "_", several "_", empty parts, unknown language + known country and vice versa, case variants, prefixes/suffixes of valid names, odd charsets; (c) seeded random byte '
+        'strings of length 0-199. Oracle: independent parse + lookup in the public tables; pointer membership in the tables decided without dereferencing (result materialised in 0xA5-filled storage); '
+        'ASan for the 64-byte scratch buffer. non-trivial / distinct = distinct hostile or random strings (the exhaustive part is counted in validCombinations)',
+        samples, exhaustive_part_complete=agg.get('classes', {}).get('exhaustive-language-form', 0) >= LOCALE_FORMS,
+        observed=pick(agg, 'calls', 'validCombinations', 'fallbacks', 'byCode', 'byName', 'hostileStrings', 'randomByteStrings', 'longParts', 'dotBeforeUnderscore', 'unknownLanguageKnownCountry'),
+        classes=agg.get('classes', {})),
+    assumptions=['for a language given by name the result must list that name, carry a code of that name and list only names of that code (the implementation returns the one name; "all table names" is judged for lookups by code)',
+                 'a country name containing "." (Virgin Islands, U.S.) is cut at the dot by the documented format and is therefore "any other string"',
+                 'fallback strings are literals: judged by content, not by pointer identity'],
+    manifest=dict(engine='h_locale', text='Exhaustive enumeration of every table language x country x charset form plus tens of thousands of hostile and random strings against an independent oracle, under ASan/UBSan '
+                  '(thorough: -O0, clang and a valgrind memcheck sample for uninitialised fields).', note=SAN_NOTE,
+                  technique='runtime monitoring: exhaustive + hostile input sweep against an independent table oracle under ASan/UBSan (valgrind memcheck sample)'))
